@@ -280,6 +280,73 @@ def _edge_sinks(u: Unit, name: str) -> Set[str]:
 WANT = {0: {"BOND_PAST"}, 1: {"BOND_FUTURE"}, 2: {"SYS_IN"}, 3: {"SYS_OUT"}}
 
 
+def site_gate_convention(prog: Program, chk: Check, rule: str) -> None:
+    """Single-site superoperators act as rho' = M rho: the physical leg of the chain is
+    contracted with axis 1 of M and replaced by axis 0 (one transposition of M exchanges the
+    two).  PtTebd hands the ChainControl superoperators over untransposed."""
+    chk.rule(rule, "PT-TEBD applies a single-site control M as rho' = M rho: the node made from "
+             "the gate matrix is contracted with the chain's physical leg on its input axis (1, "
+             "or 0 if the node is made from M.T) and its output axis becomes the new physical "
+             "leg; PtTebd passes the controls of ChainControl on untransposed. The transposed "
+             "application leaves symmetric controls alone and makes a reset / amplitude damping "
+             "lose the trace", floor=3)
+    u = prog.unit("backends.pt_tebd_backend:PtTebdBackend.apply_site_gate")
+    chk.saw(u)
+    du_ = DefUse(u, CFG(u.node, exc_edges=False))
+    nodes = []
+    for st in walk_local(u.node):
+        if isinstance(st, ast.Assign) and isinstance(st.value, ast.Call) \
+                and (dotted(st.value.func) or "").endswith("Node") and st.value.args:
+            arg_ = expand(du_, du_.node_of(st), st.value.args[0])      # temporaries written out
+            if "tensors" in norm(arg_):
+                nodes += [(t.id, arg_) for t in st.targets if isinstance(t, ast.Name)]
+    if len(nodes) != 1:
+        raise AnalysisError(f"{rule}: the node made from the gate matrix in apply_site_gate was not found")
+    name, arg = nodes[0]
+    flips = 0
+    while True:
+        if isinstance(arg, ast.Attribute) and arg.attr == "T":
+            flips, arg = flips + 1, arg.value
+        elif isinstance(arg, ast.Call) and isinstance(arg.func, ast.Attribute) \
+                and arg.func.attr in ("transpose",) and not arg.args:
+            flips, arg = flips + 1, arg.func.value
+        elif isinstance(arg, ast.Call) and (dotted(arg.func) or "").split(".")[-1] == "transpose" \
+                and len(arg.args) == 1:
+            flips, arg = flips + 1, arg.args[0]
+        else:
+            break
+    roles = _leg_roles(u, {name})
+    want = {1: {"SYS_IN"}, 0: {"SYS_OUT"}} if flips % 2 == 0 else {0: {"SYS_IN"}, 1: {"SYS_OUT"}}
+    if not roles:
+        raise AnalysisError(f"{rule}: no connection of the gate node with the physical leg found")
+    got = {ax: set(r) for ax, r in roles.items()}
+    chk.add(rule, u, f"gate node from {'M.T' if flips % 2 else 'M'}: legs { {a: sorted(r) for a, r in sorted(got.items())} }",
+            got == want, "" if got == want else
+            f"expected { {a: sorted(r) for a, r in sorted(want.items())} }: the control is applied "
+            f"transposed")
+    # the caller hands the controls over as they are
+    cu = prog.unit("pt_tebd:PtTebd._apply_controls")
+    chk.saw(cu)
+    gates = [c for c in walk_local(cu.node) if isinstance(c, ast.Call) and call_name(c) == "SiteGate"]
+    if not gates:
+        raise AnalysisError(f"{rule}: PtTebd._apply_controls no longer builds SiteGate objects")
+    for c in gates:
+        a = c.args[1] if len(c.args) > 1 else next((k.value for k in c.keywords if k.arg == "tensor"), None)
+        plain = isinstance(a, ast.Name)
+        chk.add(rule, cu, f"SiteGate(site, {norm(a) if a is not None else '?'})", plain,
+                "" if plain else "the control is modified (transposed / conjugated) on the way "
+                                 "to the back end", c)
+    sg = prog.cls("mps_mpo:SiteGate").methods.get("__init__")
+    if sg is None:
+        raise AnalysisError(f"{rule}: SiteGate.__init__ vanished")
+    chk.saw(sg)
+    bad = [x for x in walk_local(sg.node) if (isinstance(x, ast.Attribute) and x.attr == "T")
+           or (isinstance(x, ast.Call) and (dotted(x.func) or "").split(".")[-1] in
+               ("transpose", "swapaxes", "conj", "conjugate"))]
+    chk.add(rule, sg, "SiteGate stores the matrix as given", not bad,
+            "" if not bad else f"the gate matrix is changed on construction: {norm(bad[0])[:50]}")
+
+
 def m1(prog: Program, chk: Check) -> None:
     chk.rule("M1", "all consumers of a PT-MPO tensor agree on the leg-role table: axis 0 past bond "
              "(connected to the current bond leg), 1 future bond (becomes the new bond leg / meets "
@@ -737,3 +804,7 @@ def run(prog: Program, chk: Check) -> None:
     chk.call(m8, prog, chk)
     chk.call(m9, prog, chk)
     chk.call(m10, prog, chk)
+    from rules.c16 import storage_layout
+    chk.call(storage_layout, prog, chk, "M11")
+    from rules.c16 import read_only_getters
+    chk.call(read_only_getters, prog, chk, "M12")
